@@ -67,7 +67,12 @@ Inductive action :=
         (* start_response(status, headers[, exc_info]); exc = the exception
            instance carried by exc_info *)
 | AWrite (data : bytes)                     (* the write callable *)
-| ARaise (e : exn).
+| ARaise (e : exn)
+| AMutate (i : nat) (is_value : bool) (v : str).
+        (* only possible when the application passed its header pairs as mutable
+           LISTS instead of tuples: response_headers.extend(headers) keeps
+           references to the pair objects, and the application assigns to
+           element 0/1 of the pair that sits at index i of response_headers *)
 
 Inductive step_result := SYield (b : bytes) | SRaise (e : exn).
 (* one __next__ of the iterable: WSGI-visible actions, then a value or an exception *)
@@ -149,7 +154,7 @@ Fixpoint str_ltb (a b : str) : bool :=
 Fixpoint insert_hdr (h : str * str) (l : list (str * str)) : list (str * str) :=
   match l with
   | [] => [h]
-  | g :: l' => if str_ltb (fst h) (fst g) then h :: g :: l' else g :: insert_hdr h l'
+  | g :: l' => if str_ltb (fst g) (fst h) then g :: insert_hdr h l' else h :: g :: l'
   end.
 Fixpoint sort_hdrs (l : list (str * str)) : list (str * str) :=
   match l with
@@ -449,6 +454,13 @@ Definition start_response (t : task) (status : pyobj) (headers : list (pyobj * p
         end
     end.
 
+Fixpoint mutate_nth (i : nat) (is_value : bool) (v : str) (l : list (str * str)) : list (str * str) :=
+  match l, i with
+  | [], _ => []
+  | h :: l', O => (if is_value then (fst h, v) else (v, snd h)) :: l'
+  | h :: l', S j => h :: mutate_nth j is_value v l'
+  end.
+
 Definition run_action (c : cfg) (r : req) (disc : option nat) (s : st) (a : action) : st * outcome unit :=
   match a with
   | AStart status headers exc =>
@@ -457,6 +469,7 @@ Definition run_action (c : cfg) (r : req) (disc : option nat) (s : st) (a : acti
       end
   | AWrite data => task_write c r disc s data
   | ARaise e => (s, Exn e)
+  | AMutate i isv v => ((set_rh (mutate_nth i isv v (t_rh (fst s))) (fst s), snd s), Ok tt)
   end.
 
 Fixpoint run_actions (c : cfg) (r : req) (disc : option nat) (s : st) (l : list action) : st * outcome unit :=
